@@ -24,13 +24,13 @@ PROPS = {
     "C07": dict(props="Props/C07.v", runner="conc",
                 families=["mixed", "nofast", "guards"], scenarios=["s01", "s03", "s07"], litmus=True),
     "C08": dict(props="Props/C08.v", runner="conc",
-                families=["guards", "nofast", "helping", "mixed"], scenarios=["s01", "s03", "s04", "s05"], freeze=True, chase=[("s21", 0, 1)]),
+                families=["guards", "nofast", "helping", "mixed"], scenarios=["s01", "s03", "s04", "s05"], freeze=True, chase=[("s21", 0, 1)], stale=True),
     "C09": dict(props="Props/C09.v", runner="conc",
                 families=["helping", "nofast", "cas", "guards", "churn"], scenarios=["s03", "s05", "s08", "s09", "s10", "s22"], freeze=True),
     "C10": dict(props="Props/C10.v", runner="conc",
                 families=["guards", "mixed", "churn", "multi"], scenarios=["s04", "s07", "s10", "s13", "s14"]),
     "C11": dict(props="Props/C11.v", runner="conc",
-                families=["churn", "seqchurn", "mixed"], scenarios=["s10", "s17"], late=True),
+                families=["churn", "seqchurn", "mixed"], scenarios=["s10", "s17"], late=True, stale=True),
     "C12": dict(props="Props/C12.v", runner="conc",
                 families=["multi", "mixed"], scenarios=["s06", "s11"], typed=True, stale=True),
     "C13": dict(props="Props/C13.v", runner="conc",
